@@ -142,6 +142,14 @@ def case_parent_state(state: int, depth: int) -> Optional[str]:
     out: Dict[str, Any] = {}
 
     def entry() -> Any:
+        if depth < 0:
+            # the greenlet's entry function ITSELF asks (its frame has no f_back at all)
+            me0 = sys._getframe(0)
+            st0 = stackscope.extract(greenlet.getcurrent())
+            out["why"] = compare(st0, [me0], f"current greenlet asking from its entry function, parent {['main', 'unstarted', 'dead'][state]}")
+            main.switch()
+            return None
+
         def ask(d: int) -> Any:
             if d > 0:
                 return ask(d - 1)
@@ -334,7 +342,7 @@ def _shard(sh: Dict[str, Any]) -> Dict[str, Any]:
         if mode == 3:
             if N != 1:
                 e.assume(False)
-            stt, dep = e.choice("parent_state", 3), e.choice("depth", D + 1)
+            stt, dep = e.choice("parent_state", 3), e.choice("depth", D + 2) - 1  # -1: the entry function itself asks
             why = case_parent_state(stt, dep)
             case = {"mode": 3, "state": stt, "depth": dep}
             if len(samples) < 1:
@@ -375,7 +383,7 @@ def run(rep: Any, tier: str, seed: int) -> None:
     rep.functions = FUNCTIONS
     N = 3 if tier == "quick" else 4
     D = 2 if tier == "quick" else 3
-    rep.bounds = {"parent chain": f"1..{N} nested greenlets", "call depth per greenlet": f"0..{D}", "asker": ["main greenlet (outside)", "the target itself", "a descendant, 0..1 calls deeper"],
+    rep.bounds = {"parent chain": f"1..{N} nested greenlets", "call depth per greenlet": f"0..{D} (current greenlet: also asked from its entry function itself)", "asker": ["main greenlet (outside)", "the target itself", "a descendant, 0..1 calls deeper"],
                   "parent of the current greenlet": ["main", "unstarted", "dead"], "lifecycle": ["unstarted", "dead", "child greenlet running in another thread", "main greenlet of another thread running there"]}
     rep.bounds["greenback"] = f"sync/async alternation depth 0..{3 if tier == 'quick' else 6} inside a Trio task with a portal, observed from another task and from the innermost level, with_contexts on/off"
     rep.outside = ["PyPy greenlets", "chains deeper than the bound", "greenback.async_context / with_portal_run variants", "free-running threads"]
